@@ -68,7 +68,7 @@ def nontrivial(p, wits):
 def run(ctx):
     ctx.level = "model_checking"
     scale = float(os.environ.get("VERIF_SCALE", "1"))  # development aid only
-    progs = build_programs(ctx, int(ctx.pick(1300, 16000) * scale), ctx.pick(3, 4))
+    progs = build_programs(ctx, int(ctx.pick(1000, 16000) * scale), ctx.pick(3, 4))
     ctx.log(f"{len(progs)} programs")
     # vacuity guard: every action of the specification is exercised by a sample of the batch
     sample = [p for p in progs if not p["origin"].startswith("enum")][:150] + progs[:150]
